@@ -91,7 +91,9 @@ fn verif_replay() {
     let out = rt.block_on(async move {
         use tokio::io::{AsyncReadExt, AsyncWriteExt};
         let (mut src_peer, src_ours) = tokio::io::duplex(65536);
-        let (dst_ours, mut dst_peer) = tokio::io::duplex(65536);
+        // dst_window: how many bytes the destination takes per write (a small window = back-pressure: write() is partial)
+        let window = a["dst_window"].as_u64().unwrap_or(65536) as usize;
+        let (dst_ours, mut dst_peer) = tokio::io::duplex(window.max(1));
         let (sr, _sw) = tokio::io::split(src_ours);
         let (_dr, dw) = tokio::io::split(dst_ours);
         let mut src = SrcHalf::new("client");
@@ -115,9 +117,13 @@ fn verif_replay() {
         };
         let relay = AssertUnwindSafe(copy_half(&params, src, dst, stat.clone(),
             #[cfg(feature = "metrics")] prometheus::IntCounter::new("verif_relay", "x").unwrap())).catch_unwind();
-        let (_, r) = tokio::join!(feeder, relay);
-        let mut got = vec![];
-        let eof = tokio::time::timeout(std::time::Duration::from_millis(300), dst_peer.read_to_end(&mut got)).await.is_ok();
+        // the destination peer drains concurrently (with a small window the relay cannot finish otherwise)
+        let drain = async {
+            let mut got = vec![];
+            let eof = tokio::time::timeout(std::time::Duration::from_millis(1500), dst_peer.read_to_end(&mut got)).await.is_ok();
+            (got, eof)
+        };
+        let (_, r, (got, eof)) = tokio::join!(feeder, relay, drain);
         let counted = serde_json::to_value(&*stat).ok().and_then(|v| v["read_bytes"].as_u64()).unwrap_or(0) as usize;
         let hex: String = got.iter().map(|b| format!("{:02x}", b)).collect();
         match r {
